@@ -84,3 +84,11 @@ CLAIMS["C20"] = (
     "Abstract transfer functions assume numpy semantics; a loss outside the domain is reported as INFO without a verdict.",
     "DESIGN.md section 4 C20, Appendix A.5",
 )
+CLAIMS["C09"] = (
+    "escape/mutation analysis of the row wrapper (located by role as the callable every scan and Monte-Carlo entry partial-s into parallelise), call-site shape checks of all 13 entries, order analysis of both execution paths, worker exit-shape check",
+    "Decides schedule-independence structurally instead of by sampling schedules: (P1) the wrapper that applies a row's values mutates only a private deep copy made before the first mutation, so the lazily evaluated result of row i can never observe row j's values - in sequential mode, where all rows otherwise share one object, or any other; "
+    "(P1b) every scan.* / mc.* entry routes rows through that wrapper over list(table.iterrows()); (P2) both paths of parallelise consume results in input order and containers are built in row order; (P3) the consumer appends one result per input and no entry passes a timeout (the only dropping path); "
+    "(P4) every worker exits through Result.default(NaN Simulation). Equality with an independent simulation and the placeholder's full shape are not decided.",
+    "Trusts pebble.ProcessPool.map ordering and deepcopy independence.",
+    "DESIGN.md section 4 C09",
+)
